@@ -12,14 +12,15 @@
          * to `zero_length_streams` : the id of a stream whose content is still empty;
      - afterwards, on one thread: the task results are collected into a BTreeMap in entry order
        (rayon's `collect` keeps the order of the source, later duplicates replace earlier ones),
-       the blocks of `object_streams` are sorted by xref key and merged "only add, never replace",
+       the blocks of `object_streams` are sorted by xref key and merged "only add, never replace" -- first the
+       members that the cross-reference table places in exactly that container (Compressed{container}), then the rest --,
        and for every id in `zero_length_streams` the stream body is read from the buffer.
    A schedule is therefore: how the entry range was cut into jobs, the order in which the blocks
    reached `object_streams`, and the order in which ids reached `zero_length_streams`.
 
-   `merge_pinned` is the merge as it was before commit "fix: object streams are merged in
-   cross-reference order" (blocks flattened in completion order); it is kept for the refutation
-   of the property on that code and for the conditional theorem. *)
+   `merge_pinned` is the merge as it was before commits f28e935 "fix: object streams are merged in
+   cross-reference order" and 44beb46 (blocks flattened in completion order, no regard for the container
+   the xref names); it is kept for the refutation of the property on that code and for the conditional theorem. *)
 From Coq Require Import Permutation.
 From LV Require Import Base.Bytes Base.Sx Model.Obj Model.DocQ.
 
@@ -74,6 +75,7 @@ Record file := mkFile {
   f_max_id : N;
   f_encrypted : bool;       (* trailer has Encrypt *)
   f_entries : list entry;   (* the Normal entries, ascending xref key *)
+  f_compressed : list (N * N);   (* the Compressed entries: (object number, container) *)
 }.
 
 Definition block := (N * list member)%type.     (* (xref key of the container's entry, its members) *)
@@ -144,8 +146,21 @@ Fixpoint insert_block (b : block) (l : list block) : list block :=
   end.
 Definition sort_blocks (l : list block) : list block := fold_right insert_block [] l.
 
-Definition merge (bl : list block) (base : xmap) : xmap :=
-  merge_members base (flat_map snd (sort_blocks bl)).
+(* reference_table.get(num) == Some(Compressed { container == key, .. }) *)
+Fixpoint xref_container (xc : list (N * N)) (num : N) : option N :=
+  match xc with
+  | [] => None
+  | (n, c) :: xc' => if (n =? num)%N then Some c else xref_container xc' num
+  end.
+Definition named (xc : list (N * N)) (key : N) (m : member) : bool :=
+  match xref_container xc (fst (fst m)) with Some c => (c =? key)%N | None => false end.
+
+(* sort by key; pass A: the members the xref places in their own container; pass B: the remaining members *)
+Definition merge (xc : list (N * N)) (bl : list block) (base : xmap) : xmap :=
+  let sb := sort_blocks bl in
+  merge_members
+    (merge_members base (flat_map (fun b => filter (named xc (fst b)) (snd b)) sb))
+    (flat_map (fun b => filter (fun m => negb (named xc (fst b) m)) (snd b)) sb).
 
 (* before the repair: `object_streams.extend(members)` per task, merged in completion order *)
 Definition merge_pinned (bl : list block) (base : xmap) : xmap :=
@@ -191,7 +206,7 @@ Definition zero_pass (buf : bytes) (zl : list oid) (m : xmap) : xmap := fold_lef
 (* ---- whole load ---- *)
 Definition load_tail (f : file) (rs : list (oid * xobj)) (bl : list block) (zl : list oid) : doc :=
   {| d_version := f_version f; d_binary_mark := f_mark f; d_trailer := f_trailer f;
-     d_objects := strip (zero_pass (f_buf f) zl (merge bl (collect rs)));
+     d_objects := strip (zero_pass (f_buf f) zl (merge (f_compressed f) bl (collect rs)));
      d_max_id := f_max_id f |}.
 
 Definition load_tail_pinned (f : file) (rs : list (oid * xobj)) (bl : list block) (zl : list oid) : doc :=
